@@ -965,6 +965,17 @@ def ext_scenarios(ctx, rnd):
                 e["meta"] = dict(batch_index=1)          # keep the finding's class out of mixed traces
             events.append(e)
         scs.append(dict(kind="ext", ctx="random", events=events, salt=k + 5000 * ctx.seed))
+    # two generators taking turns: a whole batch with generator A, then ONE row (index > 0) with generator B, then the whole
+    # batch with B - the seed of (B, row) is the same both times, whatever was served in between
+    for k in range(6):
+        ga, gb = [dict(seed=rnd.randint(0, 2 ** 32 - 1), adv=rnd.choice([0, 1, 5])) for _ in range(2)]
+        row = rnd.randint(1, 3)
+        tm = dict(prog="echo", fields=[dict(k="pos", i=0), dict(k="kw", name="seed")], gaps=[" "])
+        batch = lambda g: dict(tmpl=dict(tm), path="args", req="none", vec=True, vdt="none", inputs=[dict(k="arr", vals=[1, 2, 3, 4])],   # noqa: E731
+                               mask=None, bs=None, kw={}, meta=dict(batch_index=1), rs=g)
+        single = dict(tmpl=dict(tm), path="args", req="none", vec=False, vdt="none", inputs=[dict(k="s", val=7)], mask=None, bs=None, kw={},
+                      meta=dict(batch_index=1, index_in_batch=row), rs=gb)
+        scs.append(dict(kind="ext", ctx="turns", events=[batch(ga), single, batch(gb), batch(ga)], salt=7000 + k + 100 * ctx.seed))
     # inside real model runs (batch_size > 1), two runs with the same master seed and one with another
     for bs in (2, 3) if ctx.quick else (2, 3, 4, 5):
         for path in ("dtype", "args"):
